@@ -237,13 +237,27 @@ pub fn check_one(
                 }
                 // the consuming Iterator methods of the packed iterator itself
                 if hay.len() % 4 == 1 {
-                    let c = guard(|| (s.find_iter(hay).count(), s.find_iter(hay).last().map(pm)));
+                    let c = guard(|| {
+                        let mut fe: Vec<M> = vec![];
+                        s.find_iter(hay).for_each(|m| {
+                            if fe.len() <= hay.len() + 2 {
+                                fe.push(pm(m))
+                            }
+                        });
+                        let fo = s.find_iter(hay).fold(vec![], |mut v: Vec<M>, m| {
+                            if v.len() <= hay.len() + 2 {
+                                v.push(pm(m));
+                            }
+                            v
+                        });
+                        (s.find_iter(hay).count(), s.find_iter(hay).last().map(pm), fe, fo)
+                    });
                     rep.eval();
                     rep.tally("iterator_method_cases");
-                    if c != Ok((exp_it.len(), exp_it.last().copied())) {
+                    if c != Ok((exp_it.len(), exp_it.last().copied(), exp_it.clone(), exp_it.clone())) {
                         rep.violation(
                             &format!("find_iter:{}:{}:iterator_methods", imp, kind.name()),
-                            format!("count()/last() of the packed iterator = {:?}, the sequence yielded by next() has {} items ending with {:?}", c, exp_it.len(), exp_it.last()),
+                            format!("count / last / for_each / fold of the packed iterator = {:?}, the sequence yielded by next() has {} items ending with {:?}", c.map(|t| (t.0, t.1, t.2.len(), t.3.len())), exp_it.len(), exp_it.last()),
                             case_json(pats, kind, v, hay, span, "find_iter"),
                         );
                     }
